@@ -61,7 +61,9 @@ def matches(t, s):
         return False
     for r, tr in zip(rows, tl):
         vals = r.split(',')
-        if len(vals) != len(tr) or any(Fraction(v) != Fraction(float(x)) for v, x in zip(vals, tr)):
+        if len(vals) != len(tr) or any(x != x or x in (float('inf'), float('-inf')) for x in tr):
+            return False        # (a non-finite entry matches no rational)
+        if any(Fraction(v) != Fraction(float(x)) for v, x in zip(vals, tr)):
             return False
     return True
 
